@@ -33,6 +33,35 @@ class Pipe:
                                           epr_sockets=epr_sockets, return_arrays=return_arrays)
         self.app_id = self.conn.app_id
 
+        self._open_kw = dict(max_qubits=max_qubits, hardware=hardware, transpile=transpile, return_arrays=return_arrays)
+        self.node_name = node_name
+
+    def open(self, app_id=None, max_qubits=None, epr_sockets=None):
+        """Another host application on the SAME long-lived controller (same node, next free or given app id)."""
+        from netqasm.sdk.build_types import GenericHardwareConfig, NVHardwareConfig
+        from netqasm.sdk.transpile import NVSubroutineTranspiler
+        kw = self._open_kw
+        mq = max_qubits or kw["max_qubits"]
+        hw = NVHardwareConfig(mq) if kw["hardware"] == "nv" else GenericHardwareConfig(mq)
+        return hc.PipelineConnection(self.node_name, self.ctrl, on_event=self._on_event, max_qubits=mq, hardware_config=hw,
+                                     compiler=NVSubroutineTranspiler if kw["transpile"] else None, epr_sockets=epr_sockets,
+                                     return_arrays=kw["return_arrays"], app_id=app_id)
+
+    def label_in(self, conn, qubit) -> tuple:
+        return ("p", self.ex._qubit_unit_modules[conn.app_id][qubit.qubit_id])
+
+    def state_in(self, conn, qubits: List):
+        """State of the given qubits of one application; None if they are entangled with anything else on the node."""
+        import numpy as np
+        sv = self.ex.sv
+        labs = [self.label_in(conn, q) for q in qubits]
+        others = [l for l in sv.labels if l not in labs]
+        m = sv.vector(labs + others).reshape(2 ** len(labs), -1)
+        u, sing, _ = np.linalg.svd(m, full_matrices=False)
+        if len(sing) > 1 and sing[1] > 1e-7:
+            return None
+        return u[:, 0]
+
     @property
     def ex(self) -> hc.MonitoredExecutor:
         return self.ctrl.executor
